@@ -16,7 +16,7 @@ import lena.output
 import lena.variables
 
 from ..kernel import RunResult, Boom, PullBudgetExceeded
-from ..seams.flow import Tok, SimSource, key_of, bump, tok_of
+from ..seams.flow import Tok, SimSource, key_of, bump, tok_of, Pred
 
 PROPERTY = "C02"
 LEVEL = "exploration"
@@ -69,7 +69,7 @@ class Tap(object):
         ev("tap-end", name, inv)
 
 
-class Pred(object):
+class _OldPred(object):
     """Logged predicate on the provenance serial: mask over serial % 8."""
 
     def __init__(self, log, name, mask):
